@@ -1220,7 +1220,7 @@ func (zl *zlexer) Comment() string {
 // Extract the class number from CLASSxx
 func classToInt(token string) (uint16, bool) {
 	offset := 5
-	if len(token) < offset+1 {
+	if len(token) < offset+1 || !strings.EqualFold(token[:offset], "CLASS") {
 		return 0, false
 	}
 	class, err := strconv.ParseUint(token[offset:], 10, 16)
@@ -1233,7 +1233,7 @@ func classToInt(token string) (uint16, bool) {
 // Extract the rr number from TYPExxx
 func typeToInt(token string) (uint16, bool) {
 	offset := 4
-	if len(token) < offset+1 {
+	if len(token) < offset+1 || !strings.EqualFold(token[:offset], "TYPE") {
 		return 0, false
 	}
 	typ, err := strconv.ParseUint(token[offset:], 10, 16)
